@@ -169,8 +169,7 @@ func c09ReentrantRun(c *runner.Ctx) {
 		wo = gen.WorldOpts{Jumbo: true} // >2048 documents: nested doc-value visits land in different 1024-document chunks
 	}
 	w, err := gen.GenWorld(r, c.TmpDir, fmt.Sprintf("w%d", c.Idx), wo)
-	if err != nil {
-		c.Note(fmt.Sprintf("case %d: world construction failed (C01/C02/C04's business): %s", c.Idx, firstLine(err.Error())))
+	if w = usable(c, w, err); w == nil {
 		return
 	}
 	defer w.Close()
@@ -295,8 +294,7 @@ func c09ConcurrentRun(c *runner.Ctx) {
 		wo = gen.WorldOpts{Jumbo: true, Bases: 2} // concurrent doc-value readers in different 1024-document chunks
 	}
 	w, err := gen.GenWorld(r, c.TmpDir, fmt.Sprintf("w%d", c.Idx), wo)
-	if err != nil {
-		c.Note(fmt.Sprintf("case %d: world construction failed (C01/C02/C04's business): %s", c.Idx, firstLine(err.Error())))
+	if w = usable(c, w, err); w == nil {
 		return
 	}
 	defer w.Close()
